@@ -162,3 +162,35 @@ Example C06_hc_opt_nonvacuous :
   (0 < cr_ret r /\ strict_valid [] (cr_out r) = Some l) /\ (0 < cr_ret r3 /\ strict_valid [] (cr_out r3) = Some l) /\
   all_level 12 = true /\ all_level 10 = true.
 Proof. vm_compute. repeat split; reflexivity. Qed.
+
+(* LZ4_compress_HC_destSize at levels 3-9 (hash chain) and 3-12 (hash chain + optimal parser), fillOutput mode: although
+   the last match may have been shortened by the overflow epilogue (re-encoded from optr / opSaved) and the last literal
+   run adapted to the remaining room, the block is STRICTLY valid (>= 5 last literals, last match starting >= 12 bytes
+   before the end) and decodes to the consumed prefix. *)
+From LZ4V Require Proofs.HcChainFill.
+From LZ4V Require Import Proofs.HcFillApi.
+
+Theorem C06_hc_chain_destSize_strict :
+  forall src srcSize target cLevel,
+    src_ok src -> 0 <= srcSize < 2147483648 -> 0 <= target -> chain_level cLevel = true ->
+    let r := compress_HC_destSize_chain src srcSize target cLevel in
+    0 < cr_ret r -> strict_valid [] (cr_out r) = Some (load_list src 0 (Z.to_nat (cr_consumed r))).
+Proof. exact chain_destSize_strict. Qed.
+Print Assumptions C06_hc_chain_destSize_strict.
+
+Theorem C06_hc_opt_destSize_strict :
+  forall src srcSize target cLevel,
+    src_ok src -> 0 <= srcSize < 2147483648 -> 0 <= target -> all_level cLevel = true ->
+    let r := compress_HC_destSize_all src srcSize target cLevel in
+    0 < cr_ret r -> strict_valid [] (cr_out r) = Some (load_list src 0 (Z.to_nat (cr_consumed r))).
+Proof. exact all_destSize_strict. Qed.
+Print Assumptions C06_hc_opt_destSize_strict.
+
+(* Non-vacuity: a target that cuts the input, levels 4 and 11: the truncated blocks are strictly valid *)
+Example C06_hc_destSize_strict_nonvacuous :
+  let l := repeat 7 40 ++ [1; 2; 3; 4; 5; 6; 7; 8; 9; 10; 11; 12; 13; 14; 15; 16; 17; 18; 19; 20] in
+  let r := compress_HC_destSize_chain (mem_of_list 0 l) 60 12 4 in
+  let r2 := compress_HC_destSize_all (mem_of_list 0 l) 60 12 11 in
+  (cr_consumed r = 46 /\ strict_valid [] (cr_out r) = Some (firstn 46 l)) /\
+  (cr_consumed r2 = 46 /\ strict_valid [] (cr_out r2) = Some (firstn 46 l)) /\ chain_level 4 = true /\ all_level 11 = true.
+Proof. vm_compute. repeat split; reflexivity. Qed.
